@@ -72,35 +72,63 @@ def report_detached(rep, w, fn_name) -> bool:
 
 
 def report_argmin_form(rep, w, fn_name) -> bool:
-    """Selection written as `values.append(criterion(k))` per candidate and `best = argmin/argmax(values) + offset`
-    after the loop: the offset must be the first candidate (the lower bound of the range). Only this necessary
-    condition is decided for that spelling; returns True when it is violated (reported)."""
-    from ..ir import subterms
+    """Selection written as "store criterion(k) per candidate in a container, pick argmin / argmax / max(.., key=..)
+    after the loop". Only necessary conditions are decided for that spelling; returns True when one is violated:
+    * the container is allocated in this call (a dict / list kept on the object collects candidates of earlier fits);
+    * a position is turned back into a candidate with the first candidate as offset (`argmin(values) + lo`)."""
+    from ..ir import root_object, subterms
     from ..rules_heap import _sub, lin, lin_eq
     hit = False
+    PICK = (("mod", "numpy.argmin"), ("mod", "numpy.argmax"), ("builtin", "max"), ("builtin", "min"))
     for li in w.loops.values():
-        if li.fn.name != fn_name or li.kind != "for" or li.domain is None or li.domain[0] != "call" \
-                or li.domain[1] != ("builtin", "range") or len(li.domain[2]) != 2:
+        if li.fn.name != fn_name or li.kind != "for" or li.domain is None:
             continue
-        lo = li.domain[2][0]
-        apps = [e for e in w.events if e.kind == "call" and e.name == "append" and li.lid in e.loops
-                and e.target[1][0] == "alloc" and e.target[1][1] == "list"]
-        for a in apps:
-            L = a.target[1]
-            for e in w.events:
-                if e.seq <= li.last_seq or e.kind not in ("bind", "store"):
+        dom = li.domain
+        lo = None
+        if dom[0] == "call" and dom[1] == ("builtin", "range") and len(dom[2]) == 2:
+            lo = dom[2][0]
+        elif dom[0] == "call" and dom[1] == ("builtin", "enumerate") and dom[2] and dom[2][0][0] == "call" \
+                and dom[2][0][1] == ("builtin", "range") and len(dom[2][0][2]) == 2:
+            lo = dom[2][0][2][0]
+        elif dom[0] == "call" and dom[1] == ("builtin", "range") and len(dom[2]) == 1:
+            lo = ("const", 0)
+        # containers written once per candidate inside the loop
+        conts = set()
+        for e in w.events:
+            if li.lid not in e.loops:
+                continue
+            if e.kind == "call" and e.name == "append" and e.target[0] == "attr":
+                conts.add(e.target[1])
+            if e.kind == "store" and e.target[0] == "idx" and not e.aug:
+                conts.add(e.target[1])
+        for e in w.events:
+            if e.seq <= li.last_seq or e.kind not in ("bind", "store"):
+                continue
+            for t in subterms(e.value):
+                if t[0] != "call" or t[1] not in PICK or not t[2]:
                     continue
-                for t in subterms(e.value):
-                    if t[0] == "bin" and t[1] == "+":
-                        for x, off in ((t[2], t[3]), (t[3], t[2])):
-                            inner = [u for u in subterms(x) if u[0] == "call" and u[1] in (("mod", "numpy.argmin"), ("mod", "numpy.argmax"))
-                                     and u[2][:1] == (L,)]
-                            if inner and not lin_eq(_sub(lin(off), lin(lo)), {}):
-                                hit = True
-                                rep.ev("BEST-argmin-offset", e, False,
-                                       f"the position of the best value in the list is turned into a candidate with offset "
-                                       f"'{show(off)}' but the first candidate is '{show(lo)}': for any other lower bound the "
-                                       "selected neighbourhood size is shifted")
+                arg = t[2][0]
+                base = arg[1] if arg[0] == "idx" and arg[2][0] == "slice" else arg
+                if base not in conts:
+                    continue
+                r = root_object(base)
+                if r == ("self",) or (r[0] not in ("alloc", "listcomp", "dict") and base[0] != "alloc"):
+                    hit = True
+                    rep.ev("BEST-stale-candidates", e, False,
+                           f"the best candidate is picked from '{show(base)[:60]}', which is not created in this call: values "
+                           "stored by an earlier fit (other data, other range of k) take part in the selection")
+            if lo is None:
+                continue
+            for t in subterms(e.value):
+                if t[0] == "bin" and t[1] == "+":
+                    for x, off in ((t[2], t[3]), (t[3], t[2])):
+                        inner = [u for u in subterms(x) if u[0] == "call" and u[1] in PICK[:2] and u[2]
+                                 and (u[2][0] in conts or (u[2][0][0] == "idx" and u[2][0][1] in conts))]
+                        if inner and not lin_eq(_sub(lin(off), lin(lo)), {}):
+                            hit = True
+                            rep.ev("BEST-argmin-offset", e, False,
+                                   f"the position of the best value is turned into a candidate with offset '{show(off)}' but the "
+                                   f"first candidate is '{show(lo)}': for any other lower bound the selected neighbourhood size is shifted")
     return hit
 
 
